@@ -26,7 +26,7 @@ ASSUMPTIONS = ["where no valid argument exists in the state (truncate of an empt
 EXHAUSTIVE = "the full kind x state x metadata x how x mutator matrix (no preceding history)"
 KINDS = {'Array': ['empty', 'nonempty', 'empty2d', 'zerotail'], 'Ragged': ['nosub', 'emptyvalues', 'nonempty']}
 HOWS = ['held-open-while-twin-is-opened-r+', 'r+-then-abandoned-iterator-then-r', 'via-copy', 'default-open', 'create-r', 'assign', 'r-r+-r', 'after-r+block', 'reassign-r-after-metadata-r+', 'after-nested-mixed-blocks', 'switched-inside-open-context', 'switch-to-r+-attempted-inside-own-r-block']
-MUTS = {'Array': ['setitem', 'append', 'iterappend', 'truncate', 'delete', 'md.update', 'md.setitem', 'md.pop', 'md.popdefault', 'md.popitem', 'md.del'],
+MUTS = {'Array': ['setitem', 'append', 'append0', 'append0list', 'iterappend0', 'iterappend', 'truncate', 'delete', 'md.update', 'md.setitem', 'md.pop', 'md.popdefault', 'md.popitem', 'md.del'],
         'Ragged': ['append', 'append0', 'iterappend', 'truncate', 'delete', 'md.update', 'md.setitem', 'md.pop', 'md.popdefault', 'md.popitem', 'md.del']}
 MUST_HIT = [f'how:{h}' for h in HOWS] + [f'Array:{s}' for s in KINDS['Array']] + [f'Ragged:{s}' for s in KINDS['Ragged']] + \
            ['meta:yes', 'meta:no', 'meta:single-key', 'pre-history']
@@ -69,6 +69,13 @@ def _mutator(kind, state, meta, mut):
     if mut == 'append' and kind == 'Array':
         arg = np.zeros((1, 0), 'int32') if state == 'zerotail' else [row]
         return (lambda h: h.append(arg), lambda h, p: None if len(h) == n0 + 1 else f'len {len(h)}', True)
+    if mut in ('append0', 'append0list', 'iterappend0') and kind == 'Array':
+        # an append of no rows at all (an empty array of the right row shape, the empty list, an empty iterable): nothing would be
+        # written, but the handle is read-only and the call is refused like any other append
+        tail0 = {'nonempty': (2,), 'empty2d': (3,), 'zerotail': (0,)}.get(state, ())
+        arg0 = [] if mut == 'append0list' else np.zeros((0,) + tail0, 'float64')
+        call0 = (lambda h: h.iterappend([])) if mut == 'iterappend0' else (lambda h: h.append(arg0))
+        return (call0, lambda h, p: None if len(h) == n0 else f'len {len(h)}', not (mut == 'append0list' and tail0))
     if mut == 'iterappend' and kind == 'Array':
         arg = np.zeros((1, 0), 'int32') if state == 'zerotail' else [row]
         return (lambda h: h.iterappend([arg, arg]), lambda h, p: None if len(h) == n0 + 2 else f'len {len(h)}', True)
@@ -212,7 +219,7 @@ def execute(ctx, spec):
                     keepopen = h.open_array() if kind == 'Array' else h.open_arrays()
                     keepopen.__enter__()
                     h.accessmode = 'r'
-                    if not (mut in ('append', 'append0', 'iterappend') or mut.startswith('md.')):
+                    if not (mut in ('append', 'append0', 'append0list', 'iterappend0', 'iterappend') or mut.startswith('md.')):
                         keepopen.__exit__(None, None, None)
                         keepopen = None
                 elif how == 'switch-to-r+-attempted-inside-own-r-block':
@@ -228,7 +235,7 @@ def execute(ctx, spec):
                         out.cls('switch-inside-r-block:refused')
                     if h.accessmode != 'r':
                         h.accessmode = 'r'
-                    if not (mut in ('append', 'append0', 'iterappend') or mut.startswith('md.')):
+                    if not (mut in ('append', 'append0', 'append0list', 'iterappend0', 'iterappend') or mut.startswith('md.')):
                         keepopen.__exit__(None, None, None)
                         keepopen = None
                 else:
